@@ -837,3 +837,88 @@ Proof.
   - destruct (take_first_spec (init (inline b)) n (init_wf _) eq_refl H1) as (E & _).
     rewrite E. cbn [rest init]. rewrite H2. reflexivity.
 Qed.
+
+(* ------------------------------------------------------------------ bodies whose await fails / that raise *)
+Fixpoint first_failure (b : list step) : option exn :=
+  match b with
+  | [] => None
+  | GAwait (TErr e) :: _ => Some e
+  | GRaise e :: _ => Some e
+  | _ :: b' => first_failure b'
+  end.
+
+Lemma inner_loop_fail : forall b f p lg lt st yr e,
+  first_failure b = Some e -> (length b < f)%nat ->
+  let r := inner_loop f (mkG b p lg lt st) yr in
+  last_task (fst r) = lt /\
+  (snd r = TErr e \/
+   ((exists v, snd r = TVal v) /\ first_failure (rest (fst r)) = Some e /\
+    (length (rest (fst r)) < length b)%nat /\ is_stopped (fst r) = st)).
+Proof.
+  induction b as [|s0 b IH]; intros f p lg lt st yr e Hf Hl; [discriminate|].
+  destruct f as [|f]; [cbn in Hl; lia|].
+  destruct s0 as [o|v|e0].
+  - destruct o as [v| |e0].
+    + cbn in Hf, Hl. specialize (IH f (S p) (lg ++ [yr]) lt st (TVal v) e Hf ltac:(lia)).
+      cbn in *. destruct IH as (I1 & [I2|(I2 & I3 & I4 & I5)]); (split; [auto|]); [left; auto | right; repeat split; auto; lia].
+    + cbn in Hf, Hl. specialize (IH f (S p) (lg ++ [yr]) lt st TEnd e Hf ltac:(lia)).
+      cbn in *. destruct IH as (I1 & [I2|(I2 & I3 & I4 & I5)]); (split; [auto|]); [left; auto | right; repeat split; auto; lia].
+    + cbn in *. inversion Hf; subst. auto.
+  - cbn in *. split; auto. right. repeat split; eauto.
+  - cbn in *. inversion Hf; subst. auto.
+Qed.
+
+Lemma next_value_fail s e :
+  wf s -> pending s = false -> first_failure (rest s) = Some e -> e <> E_STOPITER ->
+  let r := next_value s in
+  snd r = NVRaise e \/
+  ((exists v, snd r = NVItem (TVal v)) /\ first_failure (rest (fst r)) = Some e /\
+   (length (rest (fst r)) < length (rest s))%nat /\ pending (fst r) = false /\ is_stopped (fst r) = false).
+Proof.
+  destruct s as [b p lg lt st]. unfold wf, pending. cbn [rest last_task is_stopped].
+  intros Hwf Hp Hf He.
+  assert (Hst : st = false).
+  { destruct st; auto. destruct (Hwf eq_refl) as [Hr _]. subst b. discriminate. }
+  subst st. apply Z.eqb_neq in He.
+  destruct b as [|s0 b]; [discriminate|].
+  destruct s0 as [o|v|e0].
+  - assert (Hsend : send (mkG (GAwait o :: b) p lg lt false) =
+                    (mkG b (S p) (lg ++ [TVal VNone]) (LPending o) false, STask)).
+    { unfold send. destruct lt; try discriminate; reflexivity. }
+    unfold next_value. rewrite Hsend. unfold compute. cbn [last_task rest].
+    destruct o as [v| |e0].
+    + cbn in Hf.
+      pose proof (inner_loop_fail b (S (length b)) (S p) (lg ++ [TVal VNone]) (LPending (TVal v)) false (TVal v) e Hf ltac:(lia)) as H.
+      cbn zeta in H. destruct (inner_loop _ _ _) as [s1 r1]. cbn [fst snd] in *.
+      destruct H as (I1 & [->|((v' & ->) & I3 & I4 & I5)]); [left; reflexivity|].
+      right. cbn. repeat split; eauto; lia.
+    + cbn in Hf.
+      pose proof (inner_loop_fail b (S (length b)) (S p) (lg ++ [TVal VNone]) (LPending TEnd) false TEnd e Hf ltac:(lia)) as H.
+      cbn zeta in H. destruct (inner_loop _ _ _) as [s1 r1]. cbn [fst snd] in *.
+      destruct H as (I1 & [->|((v' & ->) & I3 & I4 & I5)]); [left; reflexivity|].
+      right. cbn. repeat split; eauto; lia.
+    + cbn in Hf. inversion Hf; subst. left. reflexivity.
+  - cbn in Hf. right. unfold next_value, send. destruct lt; try discriminate; cbn; repeat split; eauto.
+  - cbn in Hf. inversion Hf; subst. left. unfold next_value, send.
+    destruct lt; try discriminate; cbn; rewrite He; reflexivity.
+Qed.
+
+Lemma list_loop_fail : forall f s data e,
+  wf s -> pending s = false -> first_failure (rest s) = Some e -> e <> E_STOPITER ->
+  (length (rest s) + 1 <= f)%nat ->
+  snd (list_loop f s data) = LErr e.
+Proof.
+  induction f as [|f IH]; intros s data e Hwf Hp Hf He Hl; [lia|].
+  cbn [list_loop]. pose proof (next_value_fail s e Hwf Hp Hf He) as H. cbn zeta in H.
+  destruct (next_value s) as [s1 x]. cbn [fst snd] in H.
+  destruct H as [->|((v & ->) & H1 & H2 & H3 & H4)]; [reflexivity|].
+  apply IH; auto; [apply wf_running; auto|lia].
+Qed.
+
+(* the first failing await / raise of the body is what list_of_generator raises *)
+Lemma list_fails s e :
+  wf s -> pending s = false -> first_failure (rest s) = Some e -> e <> E_STOPITER ->
+  snd (list_of_generator s) = LErr e.
+Proof.
+  intros Hwf Hp Hf He. unfold list_of_generator, fuel_of. apply list_loop_fail; auto. lia.
+Qed.
